@@ -93,7 +93,7 @@ def check_rate_control(w, rep):
     verdict(rep, "C15.rate", "M = kp e1 + ki i1 + kd de1 (element-wise, with the clamped integrator)", O["M"], M, (), W, "moment command is not the PID sum of the returned terms")
 
 
-def check_position_loops2(w, rep):
+def check_position_loops2(w, rep, RULE="C15.clamp", RA="C15.API"):
     from .c14 import tolerance_guards
     Q = w.G("SO3Quat")
     for modname, fn, key, zsrc in (("cyecca.models.rdd2", "derive_position_control", "position_control", "p"),
@@ -102,15 +102,15 @@ def check_position_loops2(w, rep):
         if fn not in mod:
             raise AnchorMissing("%s.%s" % (modname, fn))
         W = w.where(modname, fn)
-        ok, res = guarded(w, rep, "C15.API", "%s()" % fn, lambda: capture_calls(w, "from_Matrix", lambda: w.callf(mod[fn]), self_is=Q))
+        ok, res = guarded(w, rep, RA, "%s()" % fn, lambda: capture_calls(w, "from_Matrix", lambda: w.callf(mod[fn]), self_is=Q))
         if not ok:
             continue
         eqs, seen = res
         f = eqs.get(key) if isinstance(eqs, dict) else None
         if not isinstance(f, cm.FunctionVal) or not seen:
-            rep.fail("C15.API", "%s exported" % key, "no Function / frame", where=W)
+            rep.fail(RA, "%s exported" % key, "no Function / frame", where=W)
             continue
-        rep.ok("C15.API", "%s resolves" % key)
+        rep.ok(RA, "%s resolves" % key)
         I = dict(zip(f.in_names, f.ins))
         O = dict(zip(f.out_names, f.outs))
         Rd = seen[-1]["arg"]
@@ -124,24 +124,28 @@ def check_position_loops2(w, rep):
         m_, g_ = mod.get("m"), mod.get("g")
         inst = "%s: feedback term is if_else(|u| > L, L u/|u|, u) with L = 0.3 m g" % key
         if parts is None:
-            rep.fail("C15.clamp", inst, "the PD term of the demanded force is not norm-limited (no common if_else(L < |u|, L u/|u|, u) over its three components)", where=W)
+            rep.fail(RULE, inst, "the PD term of the demanded force is not norm-limited (no common if_else(L < |u|, L u/|u|, u) over its three components)", where=W)
         else:
             L, us, rests = parts
             Lw = Fraction(3, 10) * m_ * g_
-            rep.check("C15.clamp", inst, L.const_value() == Lw, "norm limit is %s, 30 %% of weight is %s" % (L.const_value(), Lw), where=W, fact={"L": str(L.const_value())})
+            rep.check(RULE, inst, L.const_value() == Lw, "norm limit is %s, 30 %% of weight is %s" % (L.const_value(), Lw), where=W, fact={"L": str(L.const_value())})
             horiz = rests[0].is_zero() and rests[1].is_zero()
-            rep.check("C15.clamp", "%s: trim and integrator act along world z only" % key, horiz, "horizontal force has terms outside the limited PD term", where=W)
+            rep.check(RULE, "%s: trim and integrator act along world z only" % key, horiz, "horizontal force has terms outside the limited PD term", where=W)
+            kiz = mod.get("ki_z")
+            wantz = I["thrust_trim"].s() + I["z_i"].s().scale(kiz)
+            rep.check(RULE, "%s: demanded force = limited feedback term + (thrust_trim + ki_z z_i) zW" % key, rests[2] == wantz,
+                      "vertical force outside the feedback term is %s, expected thrust_trim + ki_z*z_i (trim plus the height integrator INPUT)" % short(rests[2], 80), where=W)
         # height integrator
         zi = O.get("z_i_2")
         if zi is not None:
             cp = clamp_parts(zi.s())
             zmax = mod.get("z_integral_max")
             good = cp is not None and cp[1] == Poly.const(-zmax) and cp[2] == Poly.const(zmax)
-            rep.check("C15.clamp", "%s: z_i_2 = clamp(., -z_integral_max, +z_integral_max)" % key, good, "height integrator is not clamped to its limit: %s" % short(zi.s(), 80), where=W)
+            rep.check(RULE, "%s: z_i_2 = clamp(., -z_integral_max, +z_integral_max)" % key, good, "height integrator is not clamped to its limit: %s" % short(zi.s(), 80), where=W)
             if good:
                 x = cp[0]
                 dep = I["z_i"].s().single_atom() in x.atoms() and I["dt"].s().single_atom() in {a for a in all_atoms(x)}
-                rep.check("C15.clamp", "%s: integrator accumulates z error times dt on the previous value" % key, dep and (x - I["z_i"].s()).t and all(I["dt"].s().single_atom() in dict(mn) for mn in (x - I["z_i"].s()).t),
+                rep.check(RULE, "%s: integrator accumulates z error times dt on the previous value" % key, dep and (x - I["z_i"].s()).t and all(I["dt"].s().single_atom() in dict(mn) for mn in (x - I["z_i"].s()).t),
                           "integrator increment is not proportional to dt", where=W)
 
 
@@ -264,6 +268,78 @@ def check_sign_independence(w, rep):
         quat_log_principal(w, rep, "C15.error", "attitude laws use ")
 
 
+def sign_of_poly_factor(p, basis, s):
+    """sign of p when p = c * basis * (monomial of positive atoms), given sign(basis) = s; else None."""
+    if not p.t:
+        return 0
+    # common monomial of sqrt/fabs atoms
+    common = None
+    for mono in p.t:
+        d = {a: e for a, e in mono if a.kind in ("sqrt", "fabs")}
+        common = d if common is None else {a: min(e, common[a]) for a, e in d.items() if a in common}
+    g = Poly({tuple(sorted(common.items(), key=lambda z: z[0].id)): 1}) if common else Poly.const(1)
+    q = canon(p * g.recip()) if common else p
+    for mono, c in basis.t.items():
+        if mono in q.t:
+            k = Fraction(q.t[mono]) / Fraction(c)
+            if q == basis.scale(k):
+                return (1 if k > 0 else -1) * s
+        break
+    return None
+
+
+def resolve_sign(M, basis, s):
+    def f(a):
+        if a.kind in ("lt", "le") and isinstance(a.key[0], Poly):
+            sg = sign_of_poly_factor(a.key[1] - a.key[0], basis, s)
+            if sg:
+                return Poly.const(1 if sg > 0 else 0)
+        if a.kind in ("fabs", "sign") and isinstance(a.key[0], Poly):
+            sg = sign_of_poly_factor(a.key[0], basis, s)
+            if sg:
+                return a.key[0].scale(sg) if a.kind == "fabs" else Poly.const(sg)
+        return None
+    return MatVal(M.r, M.c, [[deep_subs(p, f) if p.t else p for p in row] for row in M.cells], M.kind)
+
+
+def check_law_sign_independence(w, rep):
+    """law(q, -q_r) = law(q, q_r): q_r and -q_r are the same reference rotation.  Decided on the two sign cases of the
+    scalar part of X^-1 X_r (the quantity any canonicalisation tests)."""
+    Q = w.G("SO3Quat")
+    laws = []
+    f1, _ = get_fn(w, rep, "cyecca.models.rdd2", "derive_attitude_control", "attitude_control")
+    f2, _ = get_fn(w, rep, "cyecca.models.rdd2_loglinear", "derive_so3_attitude_control", "so3_attitude_control")
+    f3, _ = get_fn(w, rep, "cyecca.models.rdd2_loglinear", "derive_se23_error", "se23_error")
+    kp, q, qr = w.sym("kp", 3), w.sym("q", 4), w.sym("q_r", 4)
+    if f1 is not None:
+        laws.append(("attitude_control", lambda r: f1(kp, q, r), w.where("cyecca.models.rdd2", "derive_attitude_control")))
+    if f2 is not None:
+        laws.append(("so3_attitude_control", lambda r: f2(kp, q, r), w.where("cyecca.models.rdd2_loglinear", "derive_so3_attitude_control")))
+    if f3 is not None:
+        p_s, v_s, pr_s, vr_s = w.sym("p", 3), w.sym("v", 3), w.sym("p_r", 3), w.sym("v_r", 3)
+        laws.append(("se23_error", lambda r: f3(p_s, v_s, q, pr_s, vr_s, r), w.where("cyecca.models.rdd2_loglinear", "derive_se23_error")))
+    d0 = cm.dot(q, qr).s()        # scalar part of q^-1 * q_r
+    quats = [tuple(sym_atoms_of(q)), tuple(sym_atoms_of(qr))]
+    with with_maxdeg(30):
+        for name, call, W in laws:
+            ok, vals = guarded(w, rep, "C15.error", "%s sign independence" % name, lambda: (closed(w, call(qr)), closed(w, call(cm.neg(qr)))))
+            if not ok:
+                continue
+            A, B = vals
+            allok = True
+            for s, label in ((1, "q . q_r > 0"), (-1, "q . q_r < 0")):
+                vd, d = decide_mat(resolve_sign(A, d0, s), resolve_sign(B, d0, s), quats)
+                if vd != EQUAL:
+                    allok = False
+                    inst = "%s(q, -q_r) = %s(q, q_r) when %s" % (name, name, label)
+                    if vd == DIFFERENT:
+                        rep.fail("C15.error", inst, "the law depends on the sign of the reference quaternion (q_r and -q_r are the same rotation): %s" % d, where=W)
+                    else:
+                        rep.incomplete("C15.error", inst, "cannot decide: %s" % d, where=W)
+            if allok:
+                rep.ok("C15.error", "%s does not depend on the sign of the reference quaternion" % name)
+
+
 def zero_at_equal(w, rep, name, call, q, W):
     """With q_r = q (same rotation) the commanded rate is exactly zero: X^-1 X = e modulo |q| = 1, log(e) = 0."""
     Q = w.G("SO3Quat")
@@ -294,6 +370,7 @@ def run(w, rep, tier):
     check_stick_maps(w, rep)
     check_error_laws(w, rep)
     check_sign_independence(w, rep)
+    check_law_sign_independence(w, rep)
     rep.floor("C15.clamp", 9)
     rep.floor("C15.rate", 4)
     rep.floor("C15.error", 5)
